@@ -421,19 +421,22 @@ def walk_curve(connection, kind, reference_level=None, rng=None, cache=None):
         f_mine = objective(shared, mine)
         fs = max(f_stored, f_mine, 1e-300)
         cond_ok = rank == len(ids2) - 1
+        # what solving the normal equations in double precision can leave in the objective: each of
+        # the len(shared) terms off by about 1e-12 of the largest aligned value, plus the absolute floor
+        noise = abs_tol ** 2 + len(shared) * (1e-12 * scale_all) ** 2
         if cond_ok:
             hit('normal-matrix-rank-n-1')
-        if f_stored > f_mine + 1e-9 * fs + abs_tol ** 2:
+        if f_stored > f_mine + 1e-9 * fs + noise:
             findings.append(('C05', kind + '-offsets-are-not-the-least-squares-minimiser',
                              {'objective_stored': f_stored, 'objective_lstsq': f_mine}))
-        elif cond_ok and diff > 1e-6 * sc + abs_tol and f_stored > f_mine * (1 + 1e-6) + abs_tol ** 2:
+        elif cond_ok and diff > 1e-6 * sc + abs_tol and f_stored > f_mine * (1 + 1e-6) + noise:
             findings.append(('C05', kind + '-offsets-differ-from-lstsq-beyond-a-common-shift', {'max_difference': diff, 'scale': sc}))
         else:
             hit('least-squares-optimality-checked')
         if rng is not None:
             for _ in range(8):
                 pert = {s: base[s] + rng.gauss(0, 1) * 1e-3 * sc for s in ids2}
-                if objective(shared, pert) < f_stored - 1e-9 * fs - abs_tol ** 2:
+                if objective(shared, pert) < f_stored - 1e-9 * fs - noise:
                     findings.append(('C05', kind + '-a-perturbed-offset-vector-has-a-smaller-objective', {'objective_stored': f_stored}))
                     break
         stats['objective'] = f_stored
